@@ -418,6 +418,18 @@ def run_cmd(case):
             with open(os.path.join(work, "else", tree["name"] + ".torrent"), "wb") as fh:
                 fh.write(b"unrelated file in the working directory")
         os.makedirs(os.path.join(work, "else"), exist_ok=True)
+        if case.get("clutter"):
+            # other people's files whose names DERIVE from the paths the command is given (editor back-ups, safety copies,
+            # leftovers of other tools): nobody's scratch space
+            stems = [meta, root] + ([outfile] if outfile else [])
+            for st_ in stems:
+                d_, b_ = os.path.dirname(st_), os.path.basename(st_)
+                for nm_ in (b_ + ".tmp", b_ + ".bak", b_ + "~", "." + b_ + ".swp", b_ + ".part", b_ + ".lock",
+                            os.path.splitext(b_)[0] + ".tmp", b_ + ".torrent.tmp"):
+                    p_ = os.path.join(d_, nm_)
+                    if not os.path.lexists(p_) and len(nm_) < 250:
+                        with open(p_, "wb") as fh:
+                            fh.write(b"keep: " + nm_.encode("utf-8", "surrogateescape"))
         before = snapshot(work)
         meta_bytes = b""
         if os.path.isfile(meta):
